@@ -115,10 +115,21 @@ impl Rng {
         self.s[3] = self.s[3].rotate_left(45);
         r
     }
+    /// coverage-guided mode with input bytes left: values are decoded *literally* where they fit (a number libFuzzer copies
+    /// from a comparison operand into the input arrives as that number) and reduced modulo the range otherwise
+    #[inline]
+    fn fed(&self) -> bool {
+        match &self.feed {
+            Some((b, pos)) => *pos + 8 <= b.len(),
+            None => false,
+        }
+    }
     #[inline]
     pub fn below(&mut self, n: u64) -> u64 {
         if n == 0 {
             0
+        } else if self.fed() {
+            self.u64() % n
         } else {
             ((self.u64() as u128 * n as u128) >> 64) as u64
         }
@@ -130,11 +141,33 @@ impl Rng {
         if span > u64::MAX as u128 {
             return self.u64() as i64;
         }
+        if self.fed() {
+            let x = self.u64() as i64;
+            if x >= lo && x <= hi {
+                return x;
+            }
+            return (lo as i128 + (x as u64 % span as u64) as i128) as i64;
+        }
         (lo as i128 + self.below(span as u64) as i128) as i64
     }
     pub fn range_i128(&mut self, lo: i128, hi: i128) -> i128 {
         let span = (hi - lo) as u128 + 1;
-        let r = ((self.u64() as u128) << 64) | self.u64() as u128;
+        let fed = self.fed();
+        // (little endian: the low word comes first in the input, so a 64-bit literal written there is the value)
+        let (w0, w1) = (self.u64(), self.u64());
+        if fed {
+            let x = (((w1 as u128) << 64) | w0 as u128) as i128;
+            if x >= lo && x <= hi {
+                return x;
+            }
+            // (an even high word: the low word alone is the value, so that one 64-bit literal in the input is enough)
+            let x = w0 as i64 as i128;
+            if x >= lo && x <= hi && w1 & 1 == 0 {
+                return x;
+            }
+            return lo + ((((w1 as u128) << 64) | w0 as u128) % span) as i128;
+        }
+        let r = ((w0 as u128) << 64) | w1 as u128;
         lo + (r % span) as i128
     }
     #[inline]
